@@ -258,6 +258,12 @@ parsec_dtd_ordering_correctly( parsec_execution_stream_t *es,
 
                 get_out = 1;  /* by default escape */
                 if( !(PARSEC_OUTPUT == desc_op_type || PARSEC_INOUT == desc_op_type) ) {
+                    /* count the reader before the tail can be published as not alive */
+                    if(action_mask & PARSEC_ACTION_RELEASE_LOCAL_DEPS) {
+                        if(parsec_dtd_task_is_local(current_desc)){
+                           parsec_dtd_data_copy_reader_retain(current_task->super.data[current_dep].data_out);
+                        }
+                    }
 
                   look_for_next:
                     nextinline = (DESC_OF(current_desc, desc_flow_index))->task;
@@ -289,11 +295,6 @@ parsec_dtd_ordering_correctly( parsec_execution_stream_t *es,
                         }
                     }
 
-                    if(action_mask & PARSEC_ACTION_RELEASE_LOCAL_DEPS) {
-                        if(parsec_dtd_task_is_local(current_desc)){
-                           parsec_dtd_data_copy_reader_retain(current_task->super.data[current_dep].data_out);
-                        }
-                    }
                 } else {
                     if(action_mask & PARSEC_ACTION_RELEASE_LOCAL_DEPS) {
                         if( !(FLOW_OF(current_task, current_dep)->flags & SUCCESSOR_ITERATED) ){
